@@ -457,7 +457,9 @@ class Check(object):
                 'bounds': self.bounds,
                 'stubs_and_summaries': self.stubs,
                 'outside_the_claim': self.outside,
-                'obligations': by_name,
+                'obligations': sum(o.get('n', 1) for o in all_obl),
+                'discharged': sum(o.get('n', 1) for o in all_obl if o['result'] in ('unsat', 'ok')),
+                'obligation_table': by_name,
                 'solver_results': res_count,
                 'solver_time_s': round(sum(t.solver_s for t in self.tasks) + sum(o['secs'] for o in all_obl), 2),
                 'unwinding_misses': unwind,
